@@ -21,33 +21,7 @@ from .digest import digest, _norm
 from nautilus import Sampler  # noqa: E402
 from nautilus.bounds import NautilusBound  # noqa: E402
 
-BOUND_SKIP = {'rng', 'block'}     # 'block' is only consulted by Union.split (never after construction)
-
-
-def bound_digest(b):
-    import hashlib
-    from .digest import _feed
-    h = hashlib.sha256()
-    _walk(h, b)
-    return h.hexdigest()
-
-
-def _walk(h, o, depth=0):
-    from .digest import _feed
-    if hasattr(o, '__dict__') and type(o).__module__.startswith('nautilus'):
-        h.update(b'O' + type(o).__name__.encode())
-        d = vars(o)
-        for k in sorted(d):
-            if k in BOUND_SKIP:
-                continue
-            h.update(k.encode())
-            _walk(h, d[k], depth + 1)
-    elif isinstance(o, list):
-        h.update(b'L%d' % len(o))
-        for x in o:
-            _walk(h, x, depth + 1)
-    else:
-        _feed(h, _norm(o))
+from .digest import bound_digest  # noqa: E402
 
 
 def parts(s):
